@@ -1,7 +1,9 @@
 /* C05 (b): contracts that replace the 64x64->128 multiplier by an UNINTERPRETED function.
  *
- *   secp256k1_u128_mul(r,a,b):        *r = umul(a,b)
- *   secp256k1_u128_accum_mul(r,a,b):  *r = old(*r) + umul(a,b)     (mod 2^128)
+ *   native __int128 (cfg W128): the two one-line bodies that ARE the multiplier
+ *     secp256k1_u128_mul(r,a,b):        *r = umul(a,b)
+ *     secp256k1_u128_accum_mul(r,a,b):  *r = old(*r) + umul(a,b)     (mod 2^128)
+ *   struct emulation (cfg W128S): only secp256k1_umul128(a,b,&hi) = umul(a,b); the struct carry code stays real
  *
  * umul is CBMC's uninterpreted function symbol __CPROVER_uninterpreted_umul, constrained only by
  *   (E) it IS the exact product when one operand is one of the compile-time reduction constants the field
@@ -61,16 +63,14 @@ __CPROVER_ensures(*r == __CPROVER_old(*r) + SA_UMUL(a, b))
 __CPROVER_ensures(SA_UMUL_BOUNDS(a, b))
 ;
 #elif defined(SECP256K1_INT128_STRUCT)
-static SECP256K1_INLINE void secp256k1_u128_mul(secp256k1_uint128 *r, uint64_t a, uint64_t b)
-__CPROVER_requires(__CPROVER_w_ok(r, sizeof(*r)))
-__CPROVER_assigns(*r)
-__CPROVER_ensures((((sa_u128_t)r->hi << 64) | r->lo) == SA_UMUL(a, b))
-__CPROVER_ensures(SA_UMUL_BOUNDS(a, b))
-;
-static SECP256K1_INLINE void secp256k1_u128_accum_mul(secp256k1_uint128 *r, uint64_t a, uint64_t b)
-__CPROVER_requires(__CPROVER_rw_ok(r, sizeof(*r)))
-__CPROVER_assigns(*r)
-__CPROVER_ensures((((sa_u128_t)r->hi << 64) | r->lo) == (sa_u128_t)((((sa_u128_t)__CPROVER_old(r->hi) << 64) | __CPROVER_old(r->lo)) + SA_UMUL(a, b)))
+/* struct emulation of uint128 (cfg W128S): ONLY the 64x64->128 primitive secp256k1_umul128 is the uninterpreted function;
+ * secp256k1_u128_mul / u128_accum_mul / accum_u64 / rshift (the two-limb carry code of int128_struct_impl.h) stay REAL.
+ * (B) is NOT proved for the real 32x32 decomposition of secp256k1_umul128 (tried, undecided): the W128S units list this
+ * contract under assumed. */
+static SECP256K1_INLINE uint64_t secp256k1_umul128(uint64_t a, uint64_t b, uint64_t *hi)
+__CPROVER_requires(__CPROVER_w_ok(hi, sizeof(*hi)))
+__CPROVER_assigns(*hi)
+__CPROVER_ensures(((((sa_u128_t)*hi) << 64) | __CPROVER_return_value) == SA_UMUL(a, b))
 __CPROVER_ensures(SA_UMUL_BOUNDS(a, b))
 ;
 #endif
